@@ -3,7 +3,7 @@
 # writes seeded/<id>/sweep.txt + a summary table. Usage: seedsweep.sh [id...]
 cd /verif
 declare -A CHECKS=(
- [C01]="C01 C02" [C02]="C02 C01" [C03]="C03 C13 C07" [C04]="C04 C09 C20" [C05]="C05 C06" [C06]="C09 C06 C04" [C07]="C07"
+ [C01]="C01 C02" [C02]="C02 C01" [C03]="C03 C13 C07" [C04]="C04 C09 C20" [C05]="C05 C06 C19" [C06]="C09 C06 C04" [C07]="C07"
  [C08]="C08" [C09]="C09" [C10]="C10" [C11]="C11 C19" [C12]="C12 C11 C13" [C13]="C13" [C14]="C14" [C15]="C15"
  [C16]="C16" [C17]="C17" [C18]="C18" [C19]="C19" [C20]="C20"
 )
